@@ -158,12 +158,13 @@ def one(res, ctx, root, rng, t, forced_style, idx, sample=False):
     if empty_body and (dot or uncomm):
         # an empty file is not a covered file; with a .license carrier it would stay empty and lint would not report it
         f.write_text("K1 code\n", encoding="utf-8")
-    full = ["--no-multiprocessing", "--root", str(root), "annotate"] + args + [str(f)]
+    cwd, gargs, fargs = annot.place(rng, root, [f])
+    full = gargs + ["annotate"] + args + fargs
     before, _ = annot.read_back(root)
     rel = os.path.relpath(f, root)
     if before is not None and rel in before:
         prev_c, prev_l = before[rel]["cop"], before[rel]["lic"]
-    r = run_cli(full, cwd=str(root))
+    r = run_cli(full, cwd=cwd)
     res.n += 1
     desc = {"type": (t or {}).get("key"), "style": short, "mode": mode, "template": template, "dot": dot, "prefix": prefix, "hostile": hostile,
             "content": "binary" if binary else which, "years": years}
